@@ -1,7 +1,7 @@
 #!/usr/bin/env python3
 """Run the Kani harness groups of /verif/kani on a scratch copy of the crate.
 
-usage: python3 /verif/kani/run_kani.py <group> [--tier quick|thorough] [--repo /repo]
+usage: python3 /verif/kani/run_kani.py <group> [--tier quick|thorough] [--repo /repo] [--base /repo]
                                        [--only SUBSTR ...] [--jobs N] [--timeout SEC] [--keep]
 
 group in {c17, k-ascii, k-as, k-dt}
@@ -56,33 +56,44 @@ T = ("thorough",)
 ENCODINGS = ["utf8", "utf8_bom", "utf16le", "utf16le_bom", "utf16be", "utf16be_bom",
              "utf32le", "utf32le_bom", "utf32be", "utf32be_bom"]
 
-RT_BOUND = ("21 texts of 1..=3 scalars: first any ASCII 0x01..0x7F (symbolic), others all index "
-            "combinations over {U+0061,U+00E9,U+20AC,U+1F600}; every feasible length residue mod 4")
-RTANY_BOUND = ("texts of exactly 2 scalars: first any ASCII 0x01..0x7F, second ANY scalar value "
-               "except U+0000 (symbolic, 4 UTF-8 length classes)")
+RTQ_BOUND = ("4 concrete texts a | a U+20AC | a U+00E9 U+20AC | a U+00E9 U+1F600 through the verbatim tail of "
+             "load(); every feasible length residue mod 4")
+RT_BOUND = ("21 concrete texts of 1..=3 scalars: first 'a', others all index combinations over "
+            "{U+0061,U+00E9,U+20AC,U+1F600}, through the verbatim tail of load(); every feasible length residue mod 4")
+RTANY_BOUND = ("decode_raw_bytes on texts of exactly 2 scalars: first ANY ASCII 0x01..0x7F, second ANY scalar "
+               "value of UTF-8 length class %d (both symbolic)")
 
 # which totality / latin-1 lengths belong to which tier is filled in from measurements
 # (see /verif/contracts/notes/U-LD.md)
 C17_TOTAL_QUICK = [0, 1, 2, 3, 5]
 C17_TOTAL_THOROUGH = [0, 1, 2, 3, 4, 5, 6, 7, 8, 9, 11]
-C17_LATIN1_QUICK = [2, 3]
+C17_LATIN1_QUICK = [2]
 C17_LATIN1_THOROUGH = [2, 3, 4, 5, 6, 7]
+# (encoding, class) pairs of the symbolic-content round trips that finish within 16 GiB / 30 min;
+# the others exist in loader_c17.rs and can be tried with `--tier extended`
+C17_RTANY_FINISHES = {(e, k) for e in ENCODINGS for k in (1, 2, 3, 4)}
 
 
 def c17_harnesses():
     hs = []
     mod = "loader::kani_loader_c17::"
     for e in ENCODINGS:
-        hs.append(H(mod + "c17_rt_" + e, RT_BOUND, tiers=Q))
+        hs.append(H(mod + "c17_rtq_" + e, RTQ_BOUND, tiers=Q))
     for e in ENCODINGS:
-        hs.append(H(mod + "c17_rtany_" + e, RTANY_BOUND, tiers=T))
+        hs.append(H(mod + "c17_rt_" + e, RT_BOUND, tiers=T))
+    for e in ENCODINGS:
+        for k in (1, 2, 3, 4):
+            if (e, k) in C17_RTANY_FINISHES:
+                hs.append(H(mod + "c17_rtany_%s_c%d" % (e, k), RTANY_BOUND % k, tiers=T))
+            else:
+                hs.append(H(mod + "c17_rtany_%s_c%d" % (e, k), RTANY_BOUND % k, tiers=("extended",)))
     for n in sorted(set(C17_TOTAL_QUICK) | set(C17_TOTAL_THOROUGH)):
         hs.append(H(mod + "c17_total_len_%02d" % n,
                     "all byte strings of exactly %d bytes (decode_raw_bytes: no panic)" % n,
                     tiers=Q if n in C17_TOTAL_QUICK else T))
     hs.append(H(mod + "c17_bomstrip_len_0_2", "all valid UTF-8 strings of 0..=2 bytes (BOM strip of load)", tiers=Q))
     hs.append(H(mod + "c17_bomstrip_len_03", "all valid UTF-8 strings of exactly 3 bytes (BOM strip of load)", tiers=Q))
-    hs.append(H(mod + "c17_bomstrip_len_04", "all valid UTF-8 strings of exactly 4 bytes (BOM strip of load)", tiers=Q))
+    hs.append(H(mod + "c17_bomstrip_len_04", "all valid UTF-8 strings of exactly 4 bytes (BOM strip of load)", tiers=T))
     hs.append(H(mod + "c17_bomstrip_len_06", "all valid UTF-8 strings of exactly 6 bytes (BOM strip of load)", tiers=T))
     hs.append(H(mod + "c17_latin1_example", "the single input 61 FF", tiers=Q))
     for n in sorted(set(C17_LATIN1_QUICK) | set(C17_LATIN1_THOROUGH)):
@@ -185,8 +196,26 @@ def run_cmd(cmd, cwd, timeout, limit=True):
     return p.returncode, out, time.time() - t0, timed_out
 
 
-CHECK_RE = re.compile(
-    r"Check \d+: (?P<id>\S+)\n\s*- Status: (?P<status>\w+)\n\s*- Description: \"(?P<desc>(?:[^\"\\]|\\.|\"(?!\n))*)\"\n(?:\s*- Location: (?P<loc>[^\n]*)\n)?")
+def failed_checks(out):
+    """blocks of the form  Check N: <id>\n\t - Status: FAILURE\n\t - Description: "..."\n\t - Location: ..."""
+    res = []
+    lines = out.splitlines()
+    for i, line in enumerate(lines):
+        m = re.match(r"Check \d+: (\S+)", line)
+        if not m or i + 1 >= len(lines) or "Status: FAILURE" not in lines[i + 1]:
+            continue
+        desc, loc = "", ""
+        for l in lines[i + 2:i + 8]:
+            l = l.strip()
+            if l.startswith("- Description:"):
+                desc = l[len("- Description:"):].strip().strip('"')
+            elif l.startswith("- Location:"):
+                loc = l[len("- Location:"):].strip()
+                break
+            elif l.startswith("Check "):
+                break
+        res.append({"check": m.group(1), "description": desc, "location": loc})
+    return res
 
 
 def parse_output(out):
@@ -200,10 +229,7 @@ def parse_output(out):
     m = re.search(r"\*\* (\d+) of (\d+) cover properties satisfied", out)
     if m:
         res["cover"] = (int(m.group(1)), int(m.group(2)))
-    for c in CHECK_RE.finditer(out):
-        if c.group("status") == "FAILURE":
-            res["failed_checks"].append({"check": c.group("id"), "description": c.group("desc"),
-                                         "location": (c.group("loc") or "").strip()})
+    res["failed_checks"] = failed_checks(out)
     m = re.search(r"Verification Time: ([0-9.]+)s", out)
     res["verification_time"] = float(m.group(1)) if m else None
     return res
@@ -255,6 +281,16 @@ def run_harness(h, crate_dir, default_timeout):
             r["status"] = "error"
             r["detail"] = "only unwinding assertions failed: the #[kani::unwind] bound of the harness is too small"
             return r
+        if not fails:
+            # FAILED without a failing check: CBMC itself gave up (typically "Out of memory" under the
+            # 16 GiB limit, reported as `CBMC failed with status 6` or as checks with Status: ERROR)
+            r["status"] = "error"
+            if "Out of memory" in out or "std::bad_alloc" in out or "Status: ERROR" in out:
+                r["detail"] = "CBMC ran out of memory (16 GiB address-space limit)"
+            else:
+                m = re.search(r"CBMC failed[^\n]*", out)
+                r["detail"] = "no failing check reported; " + (m.group(0) if m else out[-600:])
+            return r
         r["status"] = "failed"
         # try to get concrete bytes
         cmd2 = ["cargo", "kani", "-Z", "concrete-playback", "--concrete-playback=print",
@@ -279,8 +315,11 @@ def run_harness(h, crate_dir, default_timeout):
 def main():
     ap = argparse.ArgumentParser()
     ap.add_argument("group", choices=sorted(GROUPS))
-    ap.add_argument("--tier", choices=["quick", "thorough"], default="quick")
-    ap.add_argument("--repo", default="/repo")
+    ap.add_argument("--tier", choices=["quick", "thorough", "extended"], default="quick",
+                    help="extended = harnesses known not to finish within 16 GiB / 30 min (not part of any check)")
+    ap.add_argument("--repo", default=os.environ.get("VF_REPO", "/repo"))
+    ap.add_argument("--base", default="/repo",
+                    help="tree that supplies whatever --repo lacks (Cargo.toml, Cargo.lock, a2lmacros, a2lfile/Cargo.toml)")
     ap.add_argument("--only", action="append", default=[], help="run only harnesses whose name contains SUBSTR")
     ap.add_argument("--jobs", type=int, default=None)
     ap.add_argument("--timeout", type=int, default=None, help="per-harness timeout in seconds")
@@ -305,11 +344,22 @@ def main():
         srepo = os.path.join(scratch, "repo")
         os.makedirs(srepo)
         try:
+            # --repo may be a partial tree (vf.mutants copies only a2lfile/src): everything that is
+            # missing there is taken from --base
+            def pick(rel):
+                p = os.path.join(args.repo, rel)
+                return p if os.path.exists(p) else os.path.join(args.base, rel)
             for f in ("Cargo.toml", "Cargo.lock"):
-                shutil.copy(os.path.join(args.repo, f), os.path.join(srepo, f))
-            for d in ("a2lfile", "a2lmacros"):
-                shutil.copytree(os.path.join(args.repo, d), os.path.join(srepo, d),
-                                ignore=shutil.ignore_patterns("target"))
+                shutil.copy(pick(f), os.path.join(srepo, f))
+            shutil.copytree(pick("a2lmacros"), os.path.join(srepo, "a2lmacros"),
+                            ignore=shutil.ignore_patterns("target"))
+            a2l = pick(os.path.join("a2lfile", "Cargo.toml"))
+            shutil.copytree(os.path.dirname(a2l), os.path.join(srepo, "a2lfile"),
+                            ignore=shutil.ignore_patterns("target"))
+            src = os.path.join(args.repo, "a2lfile", "src")
+            if os.path.dirname(a2l) != os.path.join(args.repo, "a2lfile") and os.path.isdir(src):
+                shutil.rmtree(os.path.join(srepo, "a2lfile", "src"))
+                shutil.copytree(src, os.path.join(srepo, "a2lfile", "src"))
             inject(args.group, srepo)
         except (OSError, ToolError) as e:
             doc["error"] = "scratch setup failed: %s" % e
